@@ -1,4 +1,177 @@
-import Pycoin.Model.Merkle
-namespace Pycoin.Merkle
-theorem C14_placeholder : True := trivial
-end Pycoin.Merkle
+import Pycoin.Proofs.MerkleBlock
+/-!
+C14 — Blocks round-trip, ids and merkle roots follow the Bitcoin definition.
+Property theorems only.  Part 1: merkle roots and BIP37 merkleblock proofs.
+
+`H` is the node hash (`double_sha256` in pycoin), a function symbol here.  `leaf p` is the txid at block
+position `p`, `n` the number of transactions, `mtch p` whether transaction `p` is matched.
+-/
+namespace Pycoin.C14
+open Pycoin.Merkle Pycoin.MerkleBlock Pycoin.Spec.Merkle
+
+/-! ## merkle root -/
+
+/-- C14.merkle_eq_spec: the `while` loop of `merkle()` computes the recursive Bitcoin definition
+(Core's `CalcHash(nHeight, 0)`), for every `n ≥ 1` and every hash function -/
+theorem C14_merkle_eq_spec (H : Bytes → Bytes) (leaf : Nat → Bytes) (n : Nat) (hn : 0 < n) :
+    merkle H ((List.range n).map leaf) = .ok (root H leaf n) := by
+  have h0 : (List.range n).map leaf = level H leaf n 0 := by
+    simp only [level, treeWidth_zero, List.range_eq_range']
+    rfl
+  have hl := merkleLoop_level H leaf n n 0
+  have hw := treeWidth_height hn
+  unfold merkle
+  simp only [List.length_map, List.length_range]
+  rw [h0, hl]
+  show (match level H leaf n (height n) with | [] => _ | h :: _ => _) = _
+  simp [level, hw, root]
+
+/-- the same for an arbitrary non-empty Python list -/
+theorem C14_merkle_eq_spec_list (H : Bytes → Bytes) (hs : List Bytes) (hne : hs ≠ []) :
+    merkle H hs = .ok (root H (fun i => hs[i]?.getD []) hs.length) := by
+  have hn : 0 < hs.length := List.length_pos_iff.mpr hne
+  rw [← C14_merkle_eq_spec H _ _ hn]
+  congr 1
+  apply List.ext_getElem?
+  intro i
+  by_cases hi : i < hs.length
+  · simp [hi]
+  · simp [hi, List.getElem?_eq_none (Nat.le_of_not_lt hi)]
+
+/-- `merkle([])` raises `IndexError` -/
+theorem C14_merkle_empty (H : Bytes → Bytes) : merkle H [] = .error .indexError := rfl
+
+/-- the fuel of the model's loop is never exhausted: the loop ends with at most one element -/
+theorem C14_merkle_terminates (H : Bytes → Bytes) (hs : List Bytes) : (merkleLoop H hs.length hs).length ≤ 1 := by
+  by_cases hne : hs = []
+  · subst hne; simp [merkleLoop]
+  · have hn : 0 < hs.length := List.length_pos_iff.mpr hne
+    have h0 : hs = level H (fun i => hs[i]?.getD []) hs.length 0 := by
+      simp only [level, treeWidth_zero]
+      apply List.ext_getElem?
+      intro i
+      by_cases hi : i < hs.length
+      · simp [hi, calcHash]
+      · simp [hi, List.getElem?_eq_none (Nat.le_of_not_lt hi)]
+    have hl := merkleLoop_level H (fun i => hs[i]?.getD []) hs.length hs.length 0
+    rw [← h0] at hl
+    rw [hl]
+    have hw := treeWidth_height hn
+    simp only [height] at hw
+    simp [level, hw]
+
+/-! ## BIP37 merkleblock proofs -/
+
+/-- flag bytes that agree with `bits` on the first `bits.length` positions, have exactly the needed number of
+bytes and no bit above the last consumed one in the last byte, are the packed bits -/
+theorem flags_eq_packBits (bits : List Bool) (hL : 0 < bits.length) (flags : Bytes)
+    (hbits : ∀ j, j < bits.length → flagBit flags j = bits[j]?)
+    (hlen : (bits.length - 1) / 8 = flags.length - 1)
+    (b : UInt8) (hb : flags[(bits.length - 1) / 8]? = some b)
+    (hle : ¬ (1 <<< ((bits.length - 1) % 8 + 1)) - 1 < b.toNat) : flags = packBits bits := by
+  have hflen : flags.length = (bits.length + 7) / 8 := by
+    have : (bits.length - 1) / 8 < flags.length := by
+      have := List.getElem?_eq_some_iff.mp hb
+      exact this.1
+    omega
+  apply List.ext_getElem?
+  intro i
+  by_cases hi : i < flags.length
+  · rw [packBits_get bits (by omega), List.getElem?_eq_getElem hi]
+    congr 1
+    apply UInt8.toNat_inj.mp
+    apply Nat.eq_of_testBit_eq
+    intro k
+    by_cases hk : k < 8
+    · rw [flagByte_testBit bits i k hk]
+      by_cases hj : 8 * i + k < bits.length
+      · have h1 := hbits (8 * i + k) hj
+        rw [flagBit_eq, show (8 * i + k) / 8 = i by omega, show (8 * i + k) % 8 = k by omega,
+          List.getElem?_eq_getElem hi, List.getElem?_eq_getElem hj] at h1
+        simp only [Option.map_some, Option.some.injEq] at h1
+        simp [h1, bitAt, hj]
+      · have hi' : i = (bits.length - 1) / 8 := by omega
+        have hb' : flags[i] = b := by
+          rw [List.getElem?_eq_getElem (by omega)] at hb
+          subst hi'
+          exact Option.some.inj hb
+        rw [hb']
+        have : bitAt bits (8 * i + k) = false := by
+          simp [bitAt, List.getElem?_eq_none (Nat.le_of_not_lt hj)]
+        rw [this]
+        apply Nat.testBit_lt_two_pow
+        rw [Nat.one_shiftLeft] at hle
+        have h2 : 2 ^ ((bits.length - 1) % 8 + 1) ≤ 2 ^ k := Nat.pow_le_pow_right (by decide) (by omega)
+        have h3 : 0 < 2 ^ ((bits.length - 1) % 8 + 1) := Nat.pow_pos (by decide)
+        omega
+    · have h2 : 2 ^ 8 ≤ 2 ^ k := Nat.pow_le_pow_right (by decide) (by omega)
+      rw [Nat.testBit_lt_two_pow (x := flags[i].toNat) (by have := flags[i].toNat_lt; omega),
+        Nat.testBit_lt_two_pow (x := (flagByte bits i).toNat) (by have := (flagByte bits i).toNat_lt; omega)]
+  · rw [List.getElem?_eq_none (by omega), List.getElem?_eq_none (by simp; omega)]
+
+
+section proofs
+variable (H : Bytes → Bytes) (leaf : Nat → Bytes) (mtch : Nat → Bool) (n : Nat)
+
+theorem honest_flag_checks (bits : List Bool) (hL : 0 < bits.length) :
+    (bits.length - 1) / 8 = (packBits bits).length - 1 ∧
+    (packBits bits)[(bits.length - 1) / 8]? = some (flagByte bits ((bits.length - 1) / 8)) := by
+  refine ⟨by simp; omega, packBits_get bits (by omega)⟩
+
+/-- C14.proof_accepts: for every `n ≥ 1` and every subset of matched transactions, the proof produced by the
+BIP37 builder (spec, after Core) is accepted by pycoin's verifier against the block's merkle root and yields
+exactly the matched txids in block order.  Hypothesis: no node of the block's tree has two equal children
+(pycoin raises on equal siblings; honest blocks have distinct txids and, short of a hash collision, distinct nodes). -/
+theorem C14_proof_accepts (hn : 0 < n) (hsib : NoEqualSiblings H leaf n) :
+    verify H n (proof H leaf mtch n).2 (proof H leaf mtch n).1 (root H leaf n) = .ok (matched leaf mtch n) := by
+  have hL := build_bits_pos H leaf mtch n (height n) 0
+  obtain ⟨h1, h2⟩ := honest_flag_checks _ hL
+  have h3 := flagByte_last_le _ hL
+  simp only [proof]
+  rw [verify_honest_bits H leaf mtch n hn hsib _ _ (fun j hj => flagBit_packBits _ hj)]
+  dsimp only
+  rw [if_pos h1]
+  simp only [h2, Nat.not_lt.mpr h3, if_false, if_true]
+
+/-- C14.padding_rejected: any flag bytes that carry the honest bits but differ from the honest serialisation
+(a set bit above the last consumed one, extra bytes whether zero or not, a missing byte) are rejected -/
+theorem C14_padding_rejected (hn : 0 < n) (hsib : NoEqualSiblings H leaf n) (flags : Bytes)
+    (hbits : ∀ j, j < (build H leaf mtch n (height n) 0).1.length →
+      flagBit flags j = (build H leaf mtch n (height n) 0).1[j]?)
+    (hne : flags ≠ (proof H leaf mtch n).1) :
+    verify H n (proof H leaf mtch n).2 flags (root H leaf n) = .error .notEnoughFlags ∨
+    verify H n (proof H leaf mtch n).2 flags (root H leaf n) = .error .unconsumedBits := by
+  have hL := build_bits_pos H leaf mtch n (height n) 0
+  simp only [proof] at hne ⊢
+  rw [verify_honest_bits H leaf mtch n hn hsib _ _ hbits]
+  dsimp only
+  split
+  · rename_i hlen
+    split
+    · rename_i hnone
+      -- the last consumed bit was read from that byte, so it exists
+      have := hbits ((build H leaf mtch n (height n) 0).1.length - 1) (by omega)
+      rw [flagBit_eq, hnone, List.getElem?_eq_getElem (by omega)] at this
+      simp at this
+    · rename_i b hb
+      split
+      · right; rfl
+      · rename_i hle
+        exact absurd (flags_eq_packBits _ hL flags hbits hlen b hb hle) hne
+  · left; rfl
+
+/-- C14.root_mismatch_rejected: the honest proof against any other merkle root is rejected -/
+theorem C14_root_mismatch_rejected (hn : 0 < n) (hsib : NoEqualSiblings H leaf n) (root' : Bytes)
+    (hne : root' ≠ root H leaf n) :
+    verify H n (proof H leaf mtch n).2 (proof H leaf mtch n).1 root' = .error .rootMismatch := by
+  have hL := build_bits_pos H leaf mtch n (height n) 0
+  obtain ⟨h1, h2⟩ := honest_flag_checks _ hL
+  have h3 := flagByte_last_le _ hL
+  simp only [proof]
+  rw [verify_honest_bits H leaf mtch n hn hsib _ _ (fun j hj => flagBit_packBits _ hj)]
+  dsimp only
+  rw [if_pos h1]
+  simp only [h2, Nat.not_lt.mpr h3, if_false, Ne.symm hne]
+
+end proofs
+end Pycoin.C14
